@@ -28,7 +28,8 @@ RULE = ("Histories over the alphabet {assign / slice-assign a,b,c; fixedValue; f
         "model's; a variable with both dirty bits clear must have reference ghost values and a cached boundary term equal to a "
         "freshly built one.  Non-trivial = the compared solve is preceded by >=1 BC edit and >=1 value edit, or involves a shared "
         "BC object, an explicit-solver result passed to solvePDE, or a copy edited before solving.  Distinct = SHA-1 of the program.")
-EXHAUSTIVE_NOTE = "all sequences of length <= 3 over the 14-letter alphabet x 3 final solves x 2 meshes (length 4 on the 1-D mesh in the thorough tier)"
+EXHAUSTIVE_NOTE = ("all sequences of length <= 3 over the 14-letter alphabet x 3 final solves x 2 meshes (length 4 on the 1-D mesh in the thorough tier); "
+                   "every single edit kind x every face x all 9 grid classes applied to a clean variable, followed by each solve")
 ASSUMPTIONS = ["K3: dirty bits live on the shared BC object; when another sharer's apply_BCs cleared them, a variable's cached boundary "
                "term / ghost layer stays stale.  The model tracks exactly this pattern (BC version newer than the variable's last "
                "apply, flags clear); only then a mismatch is attributed to K3",
@@ -79,7 +80,7 @@ class Interp:
 
     def _new_bc(self, BC, contents=None):
         self.rbc.append(BC)
-        self.mbc.append(dict(faces=contents if contents is not None else self._read_bc(BC), version=0))
+        self.mbc.append(dict(faces=contents if contents is not None else self._read_bc(BC), version=0, cleared=-1))
         return len(self.mbc) - 1
 
     def _new_var(self, var, interior_vals, bci, precalc=True, tags=()):
@@ -139,6 +140,17 @@ class Interp:
     def stale(self, vi):
         mv = self.mv[vi]
         return mv['applied'] < self.mbc[mv['bc']]['version']
+
+    def k3_pattern(self, vi):
+        """K3: this variable has not re-applied the BCs since their last edit, but the shared dirty bits were cleared at the
+        current BC version - necessarily through ANOTHER variable sharing the BC object (decided from the model, not from
+        the code's own flags)"""
+        mv = self.mv[vi]
+        b = self.mbc[mv['bc']]
+        return self.stale(vi) and (b['cleared'] == b['version'] or mv.get('inherited_k3', False))
+
+    def _cleared(self, bci):
+        self.mbc[bci]['cleared'] = self.mbc[bci]['version']
 
     def sharers(self, bci):
         return [i for i, mv in enumerate(self.mv) if mv['bc'] == bci]
@@ -231,7 +243,7 @@ class Interp:
             self._new_var(new, mv['interior'], bci, tags={'copy'})
             # a copy carries over the ghost layer and the 'needs update' state of the original
             self.mv[-1]['applied'] = -1 if self.stale(vi) else self.mbc[bci]['version']
-            self.mv[-1]['from_copy_of'] = vi
+            self.mv[-1]['inherited_k3'] = self.k3_pattern(vi)
         elif k == 'arith':
             if len(self.vars) >= MAXPOOL:
                 return 'skipped'
@@ -266,6 +278,8 @@ class Interp:
                 return 'skipped'
             var.apply_BCs()
             mv['applied'] = self.mbc[mv['bc']]['version']
+            mv['inherited_k3'] = False
+            self._cleared(mv['bc'])
         elif k in ('solve', 'explicit'):
             return self._solve(op, vi)
         else:
@@ -298,7 +312,7 @@ class Interp:
         spec = op['spec']
         # K3 pattern at the start of the solve: BC object newer than this variable's last apply, flags cleared by a sharer
         flags_clear = not (bool(var.BCs.modified) or bool(var.value.modified))
-        k3 = self.stale(vi) and flags_clear
+        k3 = self.k3_pattern(vi)
         fresh = self.fresh(vi)
         nt = ('bc' in mv['edits'] and 'val' in mv['edits']) or ('shared' in mv['tags']) or \
             ('explicit' in mv['tags'] and op['op'] == 'solve') or ('copy' in mv['tags'] and mv['edits'])
@@ -333,9 +347,11 @@ class Interp:
                 target = len(self.vars) - 1
             else:
                 target = None
-            # the input was re-applied if it was dirty
+            # the input was re-applied if it was dirty; the result's own apply_BCs cleared the (shared) bits
             if not flags_clear:
                 mv['applied'] = self.mbc[bci]['version']
+                mv['inherited_k3'] = False
+            self._cleared(bci_new)
         if not (np.all(np.isfinite(got)) and np.all(np.isfinite(want))):
             res.discarded = True
             self.abort = True
@@ -355,6 +371,8 @@ class Interp:
         if op['op'] == 'solve':
             mv['interior'] = np.array(var.value, float)
             mv['applied'] = self.mbc[bci]['version']
+            mv['inherited_k3'] = False
+            self._cleared(bci)
             mv['edits'] = set()
         return 'ok'
 
@@ -379,7 +397,7 @@ class Interp:
             # clean => consistent
             clean = not (bool(var.BCs.modified) or bool(var.value.modified) or bool(var._value.modified))
             if clean and not self.degenerate(mv['bc']):
-                k3 = self.stale(i)
+                k3 = self.k3_pattern(i)
                 want = oracle.ghost_reference(self.geo, mv['interior'], self.spec_of(mv['bc']))
                 full = np.asarray(var._value, float)
                 cnt = np.zeros(full.shape, int)
@@ -509,7 +527,44 @@ MESHES = [dict(name='Grid1D', faces=[[0.0, 0.2, 0.7, 1.0]], spacing=['random']),
           dict(name='Grid2D', faces=[[0.0, 0.4, 1.0], [0.0, 0.5, 1.5]], spacing=['random', 'random'])]
 
 
+SMALL = dict(Grid1D=[[0.0, 0.2, 0.7, 1.0]], CylindricalGrid1D=[[0.5, 0.8, 1.5]], SphericalGrid1D=[[0.0, 0.4, 1.0]],
+             Grid2D=[[0.0, 0.4, 1.0], [0.0, 0.5, 1.5]], CylindricalGrid2D=[[0.5, 0.8, 1.5], [0.0, 0.3, 1.0]],
+             PolarGrid2D=[[0.5, 0.8, 1.5], [0.0, 1.0, 2.5]], Grid3D=[[0.0, 0.4, 1.0], [0.0, 0.5, 1.5], [0.0, 0.3, 1.0]],
+             CylindricalGrid3D=[[0.5, 0.8, 1.5], [0.0, 1.0, 2.5], [0.0, 0.3, 1.0]],
+             SphericalGrid3D=[[0.5, 0.8, 1.5], [0.4, 1.0, 2.0], [0.0, 1.0, 2.5]])
+
+
+def single_edit_probes():
+    """every single edit kind x every face x every grid class, applied to a CLEAN variable and followed by a solve:
+    each edit on its own must be enough to invalidate the cached boundary data / ghost layer"""
+    for name, faces in SMALL.items():
+        g = dict(name=name, faces=faces, spacing=['random'] * len(faces))
+        nf = 2 * len(faces)
+        edits = []
+        for f in range(nf):
+            for coef in 'abc':
+                edits.append(dict(op='bc_set', v=0, face=f, coef=coef, val=0.5))
+                edits.append(dict(op='bc_slice', v=0, face=f, coef=coef, idx=0, val=1.5))
+            edits.append(dict(op='fixedValue', v=0, face=f, val=2.5))
+            edits.append(dict(op='fixedGradient', v=0, face=f, val=0.3, scale=3.0))
+            edits.append(dict(op='newtonCooling', v=0, face=f, k=1.0, h=0.9, T=2.0, rev=(f % 2 == 0)))
+            edits.append(dict(op='periodic', v=0, face=f, val=True))
+        edits += [dict(op='val_set', v=0, seed=5), dict(op='val_slice', v=0, idx=1, val=3.0), dict(op='update_value', v=0, w=1)]
+        for e in edits:
+            for pre in ([dict(op='apply', v=0)], [dict(op='solve', v=0, spec=SPEC0)]):
+                for fin in (dict(op='solve', v=0, spec=SPEC0), dict(op='explicit', v=0, spec=SPEC0)):
+                    yield dict(kind='probe', grid=g, init_seed=7, style='passed', ops=pre + [e, fin])
+            # undo patterns: set then restore through another route, then solve
+            if e['op'] == 'periodic':
+                yield dict(kind='probe', grid=g, init_seed=7, style='default',
+                           ops=[e, dict(op='solve', v=0, spec=SPEC0), dict(e, val=False), dict(op='solve', v=0, spec=SPEC0)])
+            if e['op'] in ('fixedValue', 'newtonCooling'):
+                yield dict(kind='probe', grid=g, init_seed=7, style='default',
+                           ops=[e, dict(op='solve', v=0, spec=SPEC0), dict(op='defaultNoFlux', v=0, face=e['face']), dict(op='solve', v=0, spec=SPEC0)])
+
+
 def enumerate_cases(tier):
+    yield from single_edit_probes()
     for mi, g in enumerate(MESHES):
         maxlen = 4 if (tier == 'thorough' and mi == 0) else 3
         for L in range(0, maxlen + 1):
